@@ -6,7 +6,7 @@ import os
 from props import C01 as base
 from props.C01 import NF, Trace, dedupe, model_term, show, IMPORTS, nontrivial, mk_case, gen_keys, py_distance
 
-THEOREMS = ["views_agree", "accept_at_capacity_iff", "reachable_views", "cleanup_only_out_of_range",
+THEOREMS = ["views_agree", "accept_at_capacity_iff", "refused_not_served", "reachable_views", "cleanup_only_out_of_range",
             "cleanup_only_when_large", "cleanup_threshold_is_global_tenth", "quote_figures_exact",
             "payments_exact", "capacity_bound", "capacity_bound_refuted"]
 RULE = ("histories over 3-12 keys with capacities 1-8 (and the default): fills to capacity followed by "
@@ -72,6 +72,9 @@ def oracle(c, o):
                         v.append(("refused-closer-record", "step %d: full store refused key %d which is closer than the farthest held key %d" % (i, k, far)))
                     if post_idx != pre_idx or post["bydist"] != pre["bydist"] or post["far"] != pre["far"]:
                         v.append(("refusal-changed-held-set", "step %d: refused put changed the held set" % i))
+                    if t.unacked_before.get(k, 0) == 0 and post["gets"][k] != NF:
+                        v.append(("refused-record-served", "step %d: key %d was refused at capacity (not held, not in flight) "
+                                  "but get serves value %s from the read cache" % (i, k, post["gets"][k])))
                     if name == "put_local" and out["far"] != far:
                         v.append(("max-records-reports-wrong-farthest", "step %d: MaxRecords arm reports farthest %s, true farthest %d" % (i, out["far"], far)))
             elif len(pre_idx) < cap and not ok:
